@@ -10,14 +10,13 @@ against the real `LinProg.show` / `SOCProg.show` / `GCProg.show` DataFrames, cel
 
 What the table keeps and what it loses:
 * kept — every coefficient of every linear row (the dense row: all `nc` columns), its sense and
-  right-hand side; and for `SOCProg` / `GCProg` also the objective, both bounds and the type of every
-  column, every second-order cone as *head + multiset of the other members*, every exponential cone as its
+  right-hand side, the objective, both bounds and the type of every column; for `SOCProg` / `GCProg` also every second-order cone as *head + multiset of the other members*, every exponential cone as its
   three members in order;
 * lost — the CSR pattern (an explicitly stored `0.0` and a missing entry both show as `0.0`:
   `showTable_st`); the *order* of the non-head members of a second-order cone (`tail_order_lost`; the
   cone `‖x_tail‖ ≤ x_head` is the same set); and, for cones that mention a column twice (never built by
   rsome itself, excluded by `Distinct`), which member is which (`head_in_tail_lost`, `exp_duplicate_lost`);
-* `LinProg.show()` is `showlc()` alone: objective, bounds and types are not in that table at all. -/
+* `LinProg.show()` (repaired in the code: it used to be `showlc()` alone) lists objective, rows, bounds and types. -/
 
 namespace RsomeV.C16Show
 open RsomeV.ShowTable
@@ -122,14 +121,9 @@ theorem read_ecRows (hlen : ∀ x ∈ P.xmat, x.length = 3) (hlt : ∀ x ∈ P.x
 
 /-! ## the round trip -/
 
-/-- **`show_roundtrip_lin`**: `LinProg.show()` is `showlc()`; every dense row, sense and right-hand
-side is read back — and nothing else is in the table. No hypothesis. -/
-theorem show_roundtrip_lin (vt : List String) : readTable (showTable P .lin vt) = toData P .lin vt := by
-  have hc : ∀ t, cls t (showTable P .lin vt).rows = if ['L', 'C'] = t then (lcRows P).map (·.2) else [] :=
-    fun t => cls_block t _ _ (tag_lcRows P)
-  have h := read_lcRows P false
-  simp only [Bool.false_eq_true, if_false] at h
-  simp [readTable, rowsOf_eq, hc, toData, h]
+/-- `toData` of a `LinProg` object: that of the same program, without cones, as a `SOCProg` -/
+theorem toData_lin (vt : List String) : toData P .lin vt = toData (linOnly P) .soc vt := by
+  simp [toData, linOnly]
 
 /-- the round trip for `SOCProg.show()` (`e = false`) and `GCProg.show()` (`e = true`) -/
 theorem show_roundtrip_conic (e : Bool) (vt : List String) (hr : NoRaise P vt) (hd : Distinct P) :
@@ -150,6 +144,16 @@ theorem show_roundtrip_conic (e : Bool) (vt : List String) (hr : NoRaise P vt) (
       typeRow, narrowRow] at hlc hqc hec hobj hub hlb hty ⊢
     simp [hlc, hqc, hec, hobj, hub, hlb, hty]
 
+/-- **`show_roundtrip_lin`**: `LinProg.show()` lists the objective row, every dense row with its sense and
+right-hand side, both bounds and the type of every column, and all of it is read back.  Only hypothesis: one
+type letter per column (otherwise `show()` raises). -/
+theorem show_roundtrip_lin (vt : List String) (hl : vt.length = P.lp.nc) :
+    readTable (showTable P .lin vt) = toData P .lin vt := by
+  rw [toData_lin]
+  exact show_roundtrip_conic (linOnly P) false vt
+    ⟨hl, by simp [linOnly], by simp [linOnly], by simp [linOnly], by simp [linOnly]⟩
+    ⟨by simp [linOnly], by simp [linOnly]⟩
+
 /-- **`show_roundtrip`**: reading the DataFrame returned by `formula.show()` gives back the program
 restricted to its stored data (`toData`): every row's dense coefficients, sense and right-hand side; for
 the conic classes also the objective, the bounds, the types, every second-order cone (head, then the other
@@ -159,7 +163,7 @@ Hypotheses: `show()` does not raise (`NoRaise`) and no cone mentions a column tw
 theorem show_roundtrip (k : Kind) (vt : List String) (hr : NoRaise P vt) (hd : Distinct P) :
     readTable (showTable P k vt) = toData P k vt := by
   cases k
-  · exact show_roundtrip_lin P vt
+  · exact show_roundtrip_lin P vt hr.len_vt
   · exact show_roundtrip_conic P false vt hr hd
   · exact show_roundtrip_conic P true vt hr hd
 
@@ -228,6 +232,28 @@ theorem show_determines (P P' : ConeProg ℚ) (k : Kind) (hk : k ≠ .lin) (vt v
     vt = vt' ∧ P.qmat.map (normCone P.lp.nc) = P'.qmat.map (normCone P'.lp.nc) ∧
     (k = .gcp → P.xmat = P'.xmat) :=
   toData_determines P P' k hk vt vt' (show_injective P P' k k vt vt' hr hd hr' hd' h)
+
+/-- **`show_determines_lin`**: the table of a `LinProg` object determines it: shape, dense rows, senses,
+right-hand sides, objective, bounds and types (a `LinProg` has no cones). -/
+theorem show_determines_lin (P P' : ConeProg ℚ) (vt vt' : List String)
+    (hl : vt.length = P.lp.nc) (hl' : vt'.length = P'.lp.nc)
+    (h : showTable P .lin vt = showTable P' .lin vt') :
+    P.lp.nc = P'.lp.nc ∧ P.lp.nr = P'.lp.nr ∧
+    (∀ i < P.lp.nr, ∀ j < P.lp.nc, P.lp.a i j = P'.lp.a i j) ∧
+    (∀ i < P.lp.nr, P.lp.eq i = P'.lp.eq i) ∧ (∀ i < P.lp.nr, P.lp.b i = P'.lp.b i) ∧
+    (∀ j < P.lp.nc, P.lp.c j = P'.lp.c j) ∧
+    (∀ j < P.lp.nc, P.lp.ub j = P'.lp.ub j) ∧ (∀ j < P.lp.nc, P.lp.lb j = P'.lp.lb j) ∧ vt = vt' := by
+  have hd : toData P .lin vt = toData P' .lin vt' := by
+    rw [← show_roundtrip_lin P vt hl, h, show_roundtrip_lin P' vt' hl']
+  have hobj := congrArg ShowData.obj hd
+  have hub := congrArg ShowData.ub hd
+  have hlb := congrArg ShowData.lb hd
+  have hvt := congrArg ShowData.vtype hd
+  simp only [toData, Option.some.injEq] at hobj hub hlb hvt
+  have hn := map_range_len _ _ _ _ hobj
+  obtain ⟨r1, r2, r3, r4⟩ := rows_determine P P' .lin .lin vt vt' hd hn
+  rw [← hn] at hobj hub hlb
+  exact ⟨hn, r1, r2, r3, r4, map_range_inj _ _ _ hobj, map_range_inj _ _ _ hub, map_range_inj _ _ _ hlb, hvt⟩
 
 /-- cones whose non-head members are listed in ascending order (what rsome's own pipeline produces:
 consecutive auxiliary columns) are shown as they are … -/
@@ -307,10 +333,13 @@ example : readTable (showTable exP .gcp exVt) =
 example : readTable (showTable exP .gcp exVt) = toData exP .gcp exVt :=
   show_roundtrip exP .gcp exVt (by decide) (by decide)
 
-/-- `LinProg.show()` shows the rows only -/
+/-- `LinProg.show()` shows the objective, the rows, the bounds and the types (a `LinProg` has no cones) -/
 example : readTable (showTable exP .lin exVt) =
-    { obj := none, rows := [([1, -2, 0, 0, 1/2], false, 3), ([0, 0, 1, 1, 0], true, 0)],
-      qcones := [], xcones := [], ub := none, lb := none, vtype := none } := by decide +kernel
+    { obj := some [1, 0, 0, -1, 0], rows := [([1, -2, 0, 0, 1/2], false, 3), ([0, 0, 1, 1, 0], true, 0)],
+      qcones := [], xcones := [],
+      ub := some [none, some 4, none, none, some 1]
+      lb := some [some 0, none, none, some (-1), some 0]
+      vtype := some ["C", "I", "C", "C", "B"] } := by decide +kernel
 
 /-- the order of the non-head members of a second-order cone is lost -/
 theorem tail_order_lost :
